@@ -33,7 +33,7 @@ var R = hx.NewRecorder("C08", "cases = attacker catalogue x GMSSL suite x client
 func TestMain(m *testing.M) {
 	for _, k := range []string{"sign_cert_wrong_key", "enc_cert_wrong_key", "untrusted", "expired", "future", "wrongname", "enc_expired", "rsa_sign_cert", "rsa_enc_cert", "swapped", "client_wrong_key", "client_untrusted", "client_expired",
 		"ske_omitted", "ske_other_key", "ske_other_randoms", "ske_other_enccert", "ske_garbage", "cv_omitted", "cv_other_key", "cv_replayed", "cv_chain_confusion", "ske_sig_not_der", "cv_sig_not_der", "finished_wrong",
-		"mitm_byte", "mitm_suites", "mitm_ske_replay", "mitm_cke_replay", "mitm_cert_swap", "mitm_cert_attacker", "baseline", "tls_server_name", "enc_cert_twice", "sign_cert_twice", "sign_cert_enc_key", "ecdhe_ske_other_key"} {
+		"mitm_byte", "mitm_suites", "mitm_ske_replay", "mitm_cke_replay", "mitm_cert_swap", "mitm_cert_attacker", "baseline", "tls_server_name", "enc_cert_twice", "sign_cert_twice", "sign_cert_enc_key", "ecdhe_ske_other_key", "resumption_other_name", "untrusted_with_own_ca"} {
 		R.Require("attack:" + k)
 	}
 	for _, k := range []string{"rsa", "p224", "p256", "p384", "p521"} {
@@ -55,7 +55,7 @@ func wrongKey(id *tlsx.Ident, other *tlsx.Ident) gmtls.Certificate {
 func TestC08_MisconfiguredPeers(t *testing.T) {
 	p := tlsx.GetPKI()
 	n := 0
-	serverAttacks := []string{"baseline", "sign_cert_wrong_key", "enc_cert_wrong_key", "untrusted", "expired", "future", "wrongname", "enc_expired", "rsa_sign_cert", "rsa_enc_cert", "swapped", "enc_cert_twice", "sign_cert_twice", "sign_cert_enc_key"}
+	serverAttacks := []string{"baseline", "sign_cert_wrong_key", "enc_cert_wrong_key", "untrusted", "expired", "future", "wrongname", "enc_expired", "rsa_sign_cert", "rsa_enc_cert", "swapped", "enc_cert_twice", "sign_cert_twice", "sign_cert_enc_key", "untrusted_with_own_ca"}
 	clientAttacks := []string{"baseline", "client_wrong_key", "client_untrusted", "client_expired", "client_std_right_key", "client_std_wrong_key", "client_std_wrong_key"}
 	hx.Check(t, hx.N(300, 4000), func(t *rapid.T) {
 		n++
@@ -81,6 +81,12 @@ func TestC08_MisconfiguredPeers(t *testing.T) {
 				enc = wrongKey(p.SrvEnc, p.SrvEncBad)
 			case "untrusted":
 				sign, enc = p.SrvSignBad.TLS, p.SrvEncBad.TLS
+				expectFail = !skip
+			case "untrusted_with_own_ca":
+				// ... and the Certificate message carries the issuing CA of that other hierarchy behind the two end-entity
+				// certificates: what a peer sends along is never a trust anchor
+				sign = p.SrvSignBad.TLS
+				enc = gmtls.Certificate{Certificate: [][]byte{p.SrvEncBad.DER, p.SM2Root2.DER}, PrivateKey: p.SrvEncBad.Key}
 				expectFail = !skip
 			case "expired":
 				sign = p.SrvSignExpired.TLS
@@ -673,6 +679,70 @@ func TestC08_TLSClientServerName(t *testing.T) {
 				t.Fatalf("client data reached a server it must not accept\n%s", desc)
 			}
 			R.Case(true, hx.HashKey("name", c.name, vers, c.ok), "attack:tls_server_name", map[bool]string{true: "name_ok", false: "name_mismatch"}[c.ok])
+		}
+	}
+}
+
+// A session cached for one server name must not vouch for another: with a warm session cache the client connects to the
+// same address (and to another one) asking for a name the server's certificates are NOT valid for. Resumption restores
+// the peer identity from the cache without looking at certificates, so the cache must never hand out a session that
+// was established under another name.
+func TestC08_ResumptionUnderAnotherName(t *testing.T) {
+	p := tlsx.GetPKI()
+	n := 0
+	for _, mode := range []string{"gm", "tls"} {
+		for _, sameAddr := range []bool{true, false} {
+			for _, second := range []string{"other.test", "SERVER.test", "server.test"} {
+				n++
+				id := fmt.Sprint("run", n)
+				cache := gmtls.NewLRUClientSessionCache(4)
+				mk := func(k int) (*gmtls.Config, *gmtls.Config) {
+					var cc, sc *gmtls.Config
+					if mode == "gm" {
+						cc, sc = tlsx.GMClient(p, fmt.Sprint("c", id, k)), tlsx.GMServer(p, fmt.Sprint("s", id, k))
+						sc.CipherSuites = []uint16{tlsx.GMECCSM4CBCSM3, tlsx.GMECCSM4GCMSM3}
+					} else {
+						cc, sc = tlsx.TLSClient(p, fmt.Sprint("c", id, k)), tlsx.TLSServer(p, p.RSASrv, fmt.Sprint("s", id, k))
+						sc.CipherSuites = []uint16{0xc02f, 0xc014}
+					}
+					cc.ClientSessionCache = cache
+					sc.SetSessionTicketKeys([][32]byte{{9, 9, byte(n)}})
+					return cc, sc
+				}
+				cc, sc := mk(1)
+				r1 := tlsx.Run(cc, sc, tlsx.Script{ClientSend: []byte("a"), ServerSend: []byte("b"), ServerAddr: "10.9.9.9:443"})
+				if r1.Client.HSErr != nil || r1.Server.HSErr != nil {
+					t.Fatalf("harness: first connection failed: %s", r1.Describe())
+				}
+				// control: the same name again resumes (the cache is warm and the server takes its ticket)
+				cc, sc = mk(2)
+				rc := tlsx.Run(cc, sc, tlsx.Script{ClientSend: []byte("a"), ServerSend: []byte("b"), ServerAddr: "10.9.9.9:443"})
+				if rc.Client.HSErr != nil || !rc.Client.State.DidResume {
+					t.Fatalf("harness: the control connection under the same name did not resume (%s): %s", mode, rc.Describe())
+				}
+				cc, sc = mk(3)
+				cc.ServerName = second
+				addr := "10.9.9.9:443"
+				if !sameAddr {
+					addr = "10.7.7.7:443"
+				}
+				r := tlsx.Run(cc, sc, tlsx.Script{ClientSend: []byte("secret"), ServerSend: []byte("reply"), ServerAddr: addr})
+				desc := fmt.Sprintf("%s client with a warm session cache (session established as %q at 10.9.9.9:443) now asks %s for %q: %s", mode, tlsx.ServerName, addr, second, r.Describe())
+				if r.Client.Panic != nil || r.Server.Panic != nil {
+					t.Fatalf("panic\n%s", desc)
+				}
+				valid := second != "other.test"
+				if valid && (r.Client.HSErr != nil || r.Server.HSErr != nil) {
+					t.Fatalf("a name the certificate is valid for was refused\n%s", desc)
+				}
+				if !valid && r.Client.HSErr == nil {
+					t.Fatalf("the client COMPLETED a handshake (resumed=%v) for a name the server holds no certificate for\n%s", r.Client.State.DidResume, desc)
+				}
+				if !valid && len(r.Server.Received) > 0 {
+					t.Fatalf("client data reached a server it must not accept\n%s", desc)
+				}
+				R.Case(true, hx.HashKey("resname", mode, sameAddr, second), "attack:resumption_other_name", map[bool]string{true: "name_ok", false: "name_mismatch"}[valid])
+			}
 		}
 	}
 }
